@@ -426,6 +426,8 @@ def _context(nodes, pos):
         if p["k"] in ("assign", "if", "for"):
             if p["k"] == "assign" and nodes[p["t"] - 1]["k"] == "tmpdef":
                 return "tmpdef"
+            if p["k"] == "assign" and "tc" in nodes[p["t"] - 1]:
+                return "assign<%s>" % nodes[p["t"] - 1]["tc"].split("[")[0]      # assign<struct>, assign<list1d>
             return p["k"]
         if p["sx"] or p["k"] in ("bit", "elem", "slice"):
             return p["k"] + ("[%s]" % slot if p["k"] in ("bit", "elem", "slice") else "")
@@ -770,7 +772,7 @@ def _generated(res, tier, workdir):
     blocks += L.context_literal_blocks(R, 192 if quick else 1920)
     blocks += L.loop_blocks()
     blocks += L.shape_blocks()
-    sblocks = L.struct_blocks(rng("c10-structs"), 1 if quick else 12, light=quick)
+    sblocks = L.struct_blocks(rng("c10-structs"), 1 if quick else 32, light=quick)
     res.note("struct_family_blocks", len(sblocks))
     blocks += sblocks
     recs = _observe(blocks, workdir)
@@ -921,7 +923,10 @@ def _canaries(res, good, verdicts, lit_traces, lit_verdicts):
     need = {"static", "runtime", "literal", "flip", "raise", "lit", "struct-static", "struct-shape", "struct-runtime",
             "struct-flip"}
     if need - set(kinds):
-        raise MachineryError("no material for canaries of kind %s" % sorted(need - set(kinds)))
+        # the material of a canary comes from traces that validate: a tree that breaks the property may leave none
+        if not res.violations:
+            raise MachineryError("no material for canaries of kind %s" % sorted(need - set(kinds)))
+        res.note("canaries_without_material", sorted(need - set(kinds)))
     _, cv = tlc.validate_traces("RTLIRTypesTrace", {"traces": can}, timeout=3000, chunk=len(can))
     acc = [(i, kinds[i]) for i, v in enumerate(cv) if v[0] == "ok"]
     if acc:
